@@ -67,6 +67,10 @@ func genC13(r *core.Rand, env *core.Env, run int) *Scenario {
 		f := fam[k]
 		same := keysOf(f)
 		k2 := pick(r, same)
+		if r.Bool(0.12) {
+			// the other key may hold another type: the command fails as a whole
+			k2 = pick(r, keys)
+		}
 		switch f {
 		case "string":
 			switch r.Intn(8) {
